@@ -412,6 +412,181 @@ def big_tool_checks(ctx, stock, jitter):
     return fails, runs, os.path.getsize(arpa)
 
 
+def run_filter(cmd, limit, env=None):
+    """sh -c cmd in its own process group under a wall-clock limit; returns (rc, stderr); rc 124 = did not terminate"""
+    e = dict(os.environ)
+    if env:
+        e.update(env)
+    p = subprocess.Popen(["sh", "-c", cmd], stdout=subprocess.PIPE, stderr=subprocess.PIPE, env=e, start_new_session=True)
+    try:
+        o, err = p.communicate(timeout=limit)
+        return p.returncode, err.decode("utf-8", "replace")
+    except subprocess.TimeoutExpired:
+        try:
+            os.killpg(p.pid, 9)
+        except OSError:
+            pass
+        o, err = p.communicate()
+        return 124, err.decode("utf-8", "replace")
+
+
+def huge_batch_checks(ctx, stock):
+    """batch_size far above the default (70000 .. 200000) with sections larger than that, made mostly of SHORT lines (<= 15 bytes:
+    the std::string small-buffer case, where the characters live inside the InputBuffer's vector element) mixed with long ones;
+    raw and ARPA; stock build and the AddressSanitizer variant.  Oracle: threaded output = threads:1 output, same exit status,
+    no sanitizer report."""
+    rng = ctx.rng.fork()
+    d = os.path.join(ctx.scratch, "huge")
+    os.makedirs(d, exist_ok=True)
+    short = ["%c%d" % (chr(97 + i % 26), i % 10) for i in range(260)]          # 2-byte words
+    keep = set(short[:130])
+    longw = ["longword%04d" % i for i in range(50)]
+    nlines = ctx.pick(230000, 450000)
+    raw, arpa = os.path.join(d, "short.raw"), os.path.join(d, "short.arpa")
+    with open(raw, "w") as g, open(arpa, "w") as f:
+        uni = ["<unk>", "<s>", "</s>"] + short + longw
+        f.write("\\data\\\nngram 1=%d\nngram 2=%d\n\n\\1-grams:\n" % (len(uni), nlines))
+        for w in uni:
+            f.write("-1.5\t%s\t-0.5\n" % w)
+        f.write("\n\\2-grams:\n")
+        for i in range(nlines):
+            r = rng.below(10)
+            if r < 6:
+                a, b = short[rng.below(130)], short[rng.below(130)]       # kept, 7..9 byte line
+            elif r < 8:
+                a, b = short[rng.below(260)], short[130 + rng.below(130)]  # removed, short
+            else:
+                a, b = longw[rng.below(50)], short[rng.below(260)]        # removed, long (heap string)
+            g.write("%s %s\t%d\n" % (a, b, rng.range(1, 9)))
+            f.write("-0.5\t%s %s\n" % (a, b))
+        f.write("\n\\end\\\n")
+    vocab = os.path.join(d, "vocab.txt")
+    open(vocab, "w").write(" ".join(sorted(keep)) + "\n" + " ".join(sorted(keep)[:60]) + "\n")
+    try:
+        asan = vlib.tool("filter", variant="asan")
+    except vlib.InfraError:
+        asan = None
+    fails, runs = [], 0
+    plans = [(["single"], "raw"), (["union"], "arpa"), (["single"], "arpa"), (["multiple"], "raw"), (["union", "context"], "raw")]
+    rng.shuffle(plans)
+    for mode, fmt in plans[:ctx.pick(2, 5)]:
+        if fails:
+            break
+        model = raw if fmt == "raw" else arpa
+        multi = mode[0] == "multiple"
+        nout = 2 if multi else 1
+        refp = os.path.join(d, "ref.")
+        for f in os.listdir(d):
+            if f.startswith("ref.") or f.startswith("thr."):
+                os.remove(os.path.join(d, f))
+        cmdref = "exec %s %s %s threads:1 model:%s %s < %s" % (stock, " ".join(mode), fmt, model, refp, vocab)
+        t0 = time.time()
+        rc1, _ = run_filter(cmdref, 120)
+        t1 = time.time() - t0
+        runs += 1
+        ref = read_outputs(refp, nout)
+        cfgs = [(2, 70000), (2, 100000), (4, 100000), (3, 200000), (2, 200000), (4, 65537), (8, 70000)]
+        rng.shuffle(cfgs)
+        todo = [(stock, k, b) for k, b in cfgs[:ctx.pick(2, 4)]]
+        if asan:
+            todo += [(asan, k, b) for k, b in cfgs[-ctx.pick(1, 2):]]
+        for exe, k, b in todo:
+            for f in os.listdir(d):
+                if f.startswith("thr."):
+                    os.remove(os.path.join(d, f))
+            thrp = os.path.join(d, "thr.")
+            cmd = "exec %s %s %s threads:%d batch_size:%d model:%s %s < %s" % (exe, " ".join(mode), fmt, k, b, model, thrp, vocab)
+            rc, err = run_filter(cmd, max(60.0, 80 * t1), env={"ASAN_OPTIONS": "detect_leaks=0"})
+            runs += 1
+            got = read_outputs(thrp, nout)
+            what = None
+            if "ERROR: AddressSanitizer" in err:
+                what = ("asan", "AddressSanitizer: %s" % (err[err.index("ERROR: AddressSanitizer"):].split("\n")[0][:200]))
+            elif rc == 124:
+                what = ("hang", "did not terminate")
+            elif rc != rc1 and not (exe == asan and rc1 == 0 and rc == 0):
+                what = ("exit-status", "exits %d, threads:1 exits %d" % (rc, rc1))
+            elif got != ref:
+                which = [i for i, (a, bb) in enumerate(zip(got, ref)) if a != bb]
+                what = ("output-differs", "output file(s) %s differ from the threads:1 result (%s vs %s bytes)" %
+                        (which, [len(x) if x is not None else None for x in got], [len(x) if x is not None else None for x in ref]))
+            if what:
+                keepd = os.path.join(ctx.replay_dir, "hugefiles-%d-%d" % (ctx.seed, len(fails)))
+                os.makedirs(keepd, exist_ok=True)
+                shutil.copy(model, keepd)
+                shutil.copy(vocab, keepd)
+                fails.append(("filter:%s:%s:huge-batch:%s" % (fmt, "+".join(mode), what[0]),
+                              "threads:%d batch_size:%d (section of %d mostly short lines)%s: %s" % (k, b, nlines, " [asan build]" if exe == asan else "", what[1]),
+                              {"cmd": cmd.replace(d, keepd).replace(exe, "<asan build>/bin/filter" if exe == asan else "bin/filter"),
+                               "reference_cmd": cmdref.replace(d, keepd).replace(stock, "bin/filter"), "files": keepd,
+                               "model": os.path.join(keepd, os.path.basename(model)), "vocab": os.path.join(keepd, os.path.basename(vocab)),
+                               "args": mode + [fmt], "threads": k, "batch_size": b, "nout": nout, "stderr_tail": err[-1500:]}))
+                break
+    return fails, runs
+
+
+def output_fault_checks(ctx, stock):
+    """The output device fails while the filter runs: /dev/full (every write: ENOSPC) and a regular file under a small `ulimit -f`
+    with SIGXFSZ ignored (EFBIG part-way).  The property's oracle: the run terminates for every thread count (the limit is the
+    observation), and fails like the single-threaded run (zero / non-zero exit alike)."""
+    rng = ctx.rng.fork()
+    d = os.path.join(ctx.scratch, "fault")
+    os.makedirs(d, exist_ok=True)
+    words = ["w%03d" % i for i in range(400)]
+    nl = 30000
+    raw, arpa = os.path.join(d, "f.raw"), os.path.join(d, "f.arpa")
+    with open(raw, "w") as g, open(arpa, "w") as f:
+        f.write("\\data\\\nngram 1=%d\nngram 2=%d\n\n\\1-grams:\n" % (len(words) + 3, nl))
+        for w in ["<unk>", "<s>", "</s>"] + words:
+            f.write("-1.5\t%s\t-0.5\n" % w)
+        f.write("\n\\2-grams:\n")
+        for _ in range(nl):
+            a, b = words[rng.below(400)], words[rng.below(400)]
+            g.write("%s %s\t%d\n" % (a, b, rng.range(1, 99)))
+            f.write("-0.5\t%s %s\n" % (a, b))
+        f.write("\n\\end\\\n")
+    vocab = os.path.join(d, "vocab.txt")
+    open(vocab, "w").write(" ".join(words[:300]) + "\n" + " ".join(words[100:400]) + "\n")
+    faults = [("dev-full", ["single"], "raw"), ("dev-full", ["union"], "arpa"), ("fsize-limit", ["union"], "raw"), ("fsize-limit", ["multiple"], "arpa"),
+              ("fsize-limit", ["single", "context"], "arpa"), ("dev-full", ["union", "context"], "raw")]
+    rng.shuffle(faults)
+    fails, runs = [], 0
+    for kind, mode, fmt in faults[:ctx.pick(3, 6)]:
+        model = raw if fmt == "raw" else arpa
+        res = {}
+        cmds = {}
+        for k in (1, 2, 4):
+            b = rng.choice([1000, 5000, 200])
+            if kind == "dev-full":
+                cmd = "exec %s %s %s threads:%d batch_size:%d model:%s /dev/full < %s" % (stock, " ".join(mode), fmt, k, b, model, vocab)
+            else:
+                outp = os.path.join(d, "lim%d." % k)
+                cmd = "trap '' XFSZ; ulimit -f 64; exec %s %s %s threads:%d batch_size:%d model:%s %s < %s" % (stock, " ".join(mode), fmt, k, b, model, outp, vocab)
+            rc, err = run_filter(cmd, 12)
+            runs += 1
+            res[k], cmds[k] = rc, cmd
+            for f in os.listdir(d):
+                if f.startswith("lim"):
+                    os.remove(os.path.join(d, f))
+        bad = [k for k in (2, 4) if res[k] == 124 and res[1] != 124] + [k for k in (2, 4) if res[k] != 124 and (res[k] == 0) != (res[1] == 0)]
+        if res[1] == 124:
+            bad = [1]
+        if bad:
+            k = bad[0]
+            keepd = os.path.join(ctx.replay_dir, "faultfiles-%d-%d" % (ctx.seed, len(fails)))
+            os.makedirs(keepd, exist_ok=True)
+            shutil.copy(model, keepd)
+            shutil.copy(vocab, keepd)
+            what = "did not terminate within 12 s" if res[k] == 124 else "exits %d" % res[k]
+            fails.append(("filter:%s:%s:output-fault:%s:%s" % (fmt, "+".join(mode), kind, "hang" if res[k] == 124 else "exit-status"),
+                          "output %s: threads:%d %s, threads:1 exits %d (exit codes by thread count: %s)" %
+                          ("to /dev/full" if kind == "dev-full" else "file under ulimit -f 64 with SIGXFSZ ignored", k, what, res[1], res),
+                          {"fault_cmds": {str(kk): cmds[kk].replace(d, keepd).replace(stock, "bin/filter") for kk in cmds}, "files": keepd, "exit_codes": res,
+                           "how": "run each command under `timeout 12`; 124 = hang"}))
+            break
+    return fails, runs
+
+
 def tsan_checks(ctx, inputs_dir_seed):
     """The threaded filter under ThreadSanitizer (variant build of the tree under test): the protocol model assumes that a batch,
     and every filter object, is touched by one thread at a time; a reported data race is an interleaving-dependent defect
@@ -506,6 +681,12 @@ def run(ctx):
     tfails += bfails
     truns += bruns
     tnon += bruns
+    hfails, hruns = huge_batch_checks(ctx, stock)
+    ofails, oruns = output_fault_checks(ctx, stock)
+    tfails += hfails + ofails
+    truns += hruns + oruns
+    ctx.coverage["huge_batch_runs"] = hruns
+    ctx.coverage["output_fault_runs"] = oruns
     sfails, sruns, snote = tsan_checks(ctx, None)
     tfails += sfails
     truns += sruns
@@ -528,7 +709,7 @@ def run(ctx):
     ctx.coverage["input_distribution"] = ("Controller: threads 2..8, batch_size 1..5, 1..4 sections (or one raw section) of size in {0, b-1, b, b+1, 2b, Qb, Qb+1, (Q+1)b, random}, "
                                           "lines of equal length in 2/3 of the cases, calls all / single / mixed / sparse over 1..3 outputs.  Tool: ARPA order 1..3 or raw counts, "
                                           "3..16 words, 1..3 sentences, section sizes aimed at multiples of 1..12; threads 2..8 x batch_size in {1,2,3, section size, +-1, 5000, 25000}; "
-                                          "2/3 of the threaded runs with jitter at the PCQueue scheduling points; plus one ~2.5 MB model (> 2 FilePiece windows) in 8-11 mode/format combinations x threads 2..8 x batch 7..25000 x 2-4 repetitions (file and pipe input), and 5-8 runs of a ThreadSanitizer build")
+                                          "2/3 of the threaded runs with jitter at the PCQueue scheduling points; plus one ~2.5 MB model (> 2 FilePiece windows) in 8-11 mode/format combinations x threads 2..8 x batch 7..25000 x 2-4 repetitions (file and pipe input), 5-8 runs of a ThreadSanitizer build, batch sizes 65537..200000 on a 230000-line section of mostly <= 15-byte lines (stock and AddressSanitizer builds), and output faults (/dev/full, ulimit -f) for threads 1, 2, 4")
     for c, o in list(zip(cases, iout))[:3]:
         ctx.sample({"case": c[:300], "impl": o[:300]})
     ctx.assumptions += ["PCQueue delivers every batch exactly once (property C17); boost primitives, sequential consistency",
@@ -541,7 +722,7 @@ def run(ctx):
                         "inputs larger than the FilePiece window, and the ThreadSanitizer build)"]
     for sig, what, rep in spec_fail[:4]:
         ctx.report(sig, what, rep)
-    for sig, what, rep in tfails[:7]:
+    for sig, what, rep in tfails[:9]:
         ctx.report(sig, what, rep)
     if not spec_fail and not tfails:
         if mismatches:
